@@ -28,6 +28,9 @@ type S3 struct {
 	// Log of requests: "METHOD key"
 	Log []string
 	nup int
+	// RefuseDelete, if set, makes DELETE of the keys it returns true for fail with 403 AccessDenied.
+	RefuseDelete func(key string) bool
+	Refused      int
 }
 
 func NewS3(bucket string) *S3 {
@@ -158,6 +161,12 @@ func (s *S3) serve(w http.ResponseWriter, r *http.Request) {
 		}
 	case r.Method == "DELETE":
 		s.mu.Lock()
+		if s.RefuseDelete != nil && s.RefuseDelete(key) {
+			s.Refused++
+			s.mu.Unlock()
+			s3err(w, 403, "AccessDenied")
+			return
+		}
 		delete(s.Objects, key)
 		s.mu.Unlock()
 		w.WriteHeader(204)
